@@ -589,9 +589,10 @@ func (r *Resolver) resolveOneNoCache(ctx context.Context, name, typ string) ([]a
 		}
 	}
 	// A negative answer comes with the SOA record of the zone in the
-	// authority section, which says how long it may be kept. RFC 2308
-	// Section 5
-	if len(result.Answer) == 0 {
+	// authority section, which says how long it may be kept. The answer
+	// section may still hold the CNAME records that lead to the name
+	// without data. RFC 2308 Section 2.2, Section 5
+	if len(res) == 0 {
 		for _, a := range result.Authority {
 			ttl = min(ttl, a.TTL)
 			if soa, ok := a.Data.(dns.SOA); ok {
